@@ -1076,6 +1076,16 @@ func c12Scenarios(th bool) []vx.Scenario {
 	for _, pre := range [][]string{{}, {"data"}, {"bsend"}, {"bsend", "poll"}, {"data", "bsend"}} {
 		out = append(out, c12CloseSilentBackend(pre))
 	}
+	// more unpolled backend messages than the queue holds (the reading goroutine is parked on the full
+	// queue), then the client closes, or the backend does
+	for _, n := range []int{10, 11, 14} {
+		pre := make([]string, n)
+		for i := range pre {
+			pre[i] = "bsend"
+		}
+		out = append(out, c12CloseSilentBackend(pre))
+		out = append(out, c12CloseSilentBackend(append(append([]string{}, pre...), "poll")))
+	}
 	// what polls deliver is what the backend sent (several messages queued before the poll, then a close)
 	{
 		a11 := alphabetC11(false)
